@@ -138,12 +138,12 @@ theorem reindexLabels_none (labels : List Nat) (which : Isolated) :
 
 /-- **LouvainEmbedding at fit level**: whatever labels Louvain returned, a successful `fit` gives
     `embedding_[i][c]` = share of the weight of row `i` carried by the columns whose (re-indexed) label `labels_` is `c`. -/
-theorem louvainEmbFit_entry (nRow nCol : Nat) (a : Mat α) (ln lr lc : List Nat) (which : Isolated)
-    {out : LouvainEmbOut α} (h : louvainEmbFit nRow nCol a ln lr lc which = .ok out)
+theorem louvainEmbFit_entry (nRow nCol : Nat) (a : Mat α) (fb : Bool) (ln lr lc : List Nat) (which : Isolated)
+    {out : LouvainEmbOut α} (h : louvainEmbFit nRow nCol a fb ln lr lc which = .ok out)
     (i c : Nat) (hi : i < nRow) (hc : c < membershipCols out.labels) :
     mget out.embedding i c = Spec.louvainEntry nCol a out.labels i c := by
   unfold louvainEmbFit at h
-  by_cases hsq : (nRow == nCol) = true
+  by_cases hsq : (!(fb || nRow != nCol)) = true
   · simp only [hsq, if_true, reindexLabels, bind, Except.bind, pure, Except.pure] at h
     have := Except.ok.inj h
     rw [← this] at hc ⊢
@@ -157,13 +157,14 @@ theorem louvainEmbFit_entry (nRow nCol : Nat) (a : Mat α) (ln lr lc : List Nat)
 
 /-- the column embedding of a rectangular input: the closed form for some labelling of the rows (the re-indexed
     secondary labels) -/
-theorem louvainEmbFit_col (nRow nCol : Nat) (a : Mat α) (ln lr lc : List Nat) (which : Isolated)
-    {out : LouvainEmbOut α} (h : louvainEmbFit nRow nCol a ln lr lc which = .ok out) (hne : (nRow == nCol) = false) :
+theorem louvainEmbFit_col (nRow nCol : Nat) (a : Mat α) (fb : Bool) (ln lr lc : List Nat) (which : Isolated)
+    {out : LouvainEmbOut α} (h : louvainEmbFit nRow nCol a fb ln lr lc which = .ok out)
+    (hne : (fb || nRow != nCol) = true) :
     ∃ labRow : List Int, ∃ ec, out.embeddingCol = some ec ∧
       ∀ j c, j < nCol → c < membershipCols labRow →
         mget ec j c = Spec.louvainEntry nRow (mkMat nCol nRow fun j i => mget a i j) labRow j c := by
   unfold louvainEmbFit at h
-  simp only [hne, Bool.false_eq_true, if_false, reindexLabels, bind, Except.bind, pure, Except.pure] at h
+  simp only [hne, Bool.not_true, Bool.false_eq_true, if_false, reindexLabels, bind, Except.bind, pure, Except.pure] at h
   split at h
   · cases h
   · rename_i v _
